@@ -225,7 +225,7 @@ pub async fn request_certificate(
 	drop(data_builder);
 
 	// Finalize the order by sending the CSR
-	let key_pair = certificate::get_key_pair(cert).await?;
+	let (key_pair, is_new_key_pair) = certificate::get_key_pair(cert).await?;
 	let domains: Vec<String> = cert
 		.identifiers
 		.iter()
@@ -285,6 +285,9 @@ pub async fn request_certificate(
 		.await
 		.map_err(HttpError::in_err)?;
 	drop(data_builder);
+	if is_new_key_pair {
+		certificate::store_key_pair(cert, &key_pair).await?;
+	}
 	storage::write_certificate(&cert.file_manager, crt.as_bytes()).await?;
 
 	cert.info(&format!(
